@@ -235,6 +235,10 @@ def run_planted(ctx, case):
             gens = np.stack(([low] if planted else [r.normal(size=(m, n))]) + [r.normal(size=(m, n)) for _ in range(dim - 1)])
         mixed = _hide(r, gens, 'real')
         if m != n:
+            # the docstring names square matrices, the code reads both dimensions separately: the non-square array is handed over as it is, too
+            tag_ns, ub_ns = nq.matrix_space.detect_real_matrix_subspace_rank_one(mixed)
+            if planted:
+                ctx.require(bool(tag_ns) and ub_ns >= 1 - 1e-6, '"no rank-one element" is not certified for a real subspace of NON-SQUARE matrices that contains one', f'm={m} n={n} dim={dim} bound={ub_ns}')
             ctx.label('non-square: detector documented for square matrices, padded')
             N = max(m, n)
             pad = np.zeros((dim, N, N))
